@@ -109,7 +109,7 @@ func TestC02(t *testing.T) {
 	if os.Getenv("VERIF_ONLY_REGRESS") != "" {
 		return
 	}
-	kit.SetRapid(kit.N(480, 12000))
+	kit.SetRapid(kit.N(480, 8000))
 	rapid.Check(t, kit.Prop("C02", func(t *rapid.T) {
 		w := kit.GenWorld(t, kit.GenOpts{Wide: rapid.Bool().Draw(t, "wide")})
 		co := genCompileOpts(t)
